@@ -23,6 +23,7 @@ var c09Builders = []string{
 	"bm = xs.push", "bk = dd.keys", "bc = ceil", "bs = [xs.pop, toStr]", "bd = {'m': xs.kh}",
 	"big2 = [0]*500; i = 0; while i < 100 { big2.push(i); i = i + 1 }; big2.len()", "big3 = [1]*300; i = 0; while i < 250 { big3.push([i]); i = i + 1 }; 0",
 	"func fam() { b2 + f + 2a8 + 2c8 }", "&cfam = p1 + f + 3a9", "func fmix() { 6a10 + 100 }", "&cmix = 2c8 + 200", "func fbit() { 6 | 1 }", "func fnd() { 2d + 1 }",
+	"grid = [[0, 0], [0, 0], [0, 0]]", "rows = [{'hp': 10}, {'hp': 10}, {'hp': 10, 'mp': 1}, {'hp': 10}]", "pair = [[], [], {}, {}]", "tw = [[1], [1], [2], [1], 'x', 'x', 3, 3]", "sib = {'a': [0, 0], 'b': [0, 0], 'c': [[5], [5]]}",
 	"uni = '中文🎲é'", "empty = ''", "zero = 0", "t2 = true", "lng = [1..20]", "dup = [1]*5",
 }
 
@@ -32,6 +33,7 @@ var c09FollowUps = []string{
 	"t", "u", "w", "arr2", "mix", "mix[0](3)", "fd.fn(4)", "fd.cv", "e1", "ce()", "cx", "uni", "empty", "toStr(dd)", "toStr(nest)", "repr(s)", "typeId(f)", "typeId(&cv)", "&cv", "lng.sum()", "dup", "a = a + 1; a", "xs == xs", "dd == dd", "xs[0:2]", "s[1:3]", "`{xs}{dd}{cv}`", "f", "&cd", "cv.compute()", "dir(xs)",
 	"fam()", "cfam", "fmix()", "cmix", "fbit()", "fnd()", "bm(7); xs", "bk()", "bc(1.5)", "bs[1](2)", "bd.m(1)", "big2.len()", "big2[550]", "big3.len()", "bm",
 
+	"grid[0][0] = 1; grid", "grid[2][1] = 7; grid[1]", "rows[1].hp = 3; rows", "rows[3].hp = rows[0].hp - 1; rows[0]", "pair[0].push(1); pair", "pair[3].k = 1; pair", "tw[1].push(5); tw", "sib.a[0] = 9; sib", "sib.c[1].push(6); sib.c", "grid", "rows", "tw",
 	"hk", "hk.keys()", "hs", "hn", "toStr(hk)", "&hc.at", "hf()", "ht", "hs + hs", "hk == hk",
 }
 
@@ -371,6 +373,13 @@ func c09Case(w *fw.W, idx int, r *fw.Rand) {
 			w.Violate(idx, "json", "json|reserialise", desc, "second round trip differs", nil)
 		}
 	}
+	// a decoded snapshot is a tree: no container of the restored state is reachable twice, whatever
+	// the original looked like (equal siblings, shared rows) — independent values stay independent
+	if hasAliasing(b) {
+		w.Violate(idx, "json", "json|restored-sharing", desc, "two paths of the restored state reach the same array/dict (writing through one would show through the other)\n restored "+trunc(vb, 400)+"\n json "+trunc(string(snap), 400), nil)
+		return
+	}
+	w.Count("restored_states_are_trees", 1)
 	if hasAliasing(a) {
 		w.Count("aliased_states_structural_only", 1)
 		w.Note(fw.Hash64(desc))
@@ -474,7 +483,7 @@ func init() {
 		Floors: func(tier string) map[string]int64 {
 			return map[string]int64{"states": 5000, "roundtrips_equal": 4000, "followups": 8000, "unrepresentable_rejected": 300}
 		},
-		Rule:        "state = 1–9 statements (50 builder statements: scalars, nested containers, functions incl. empty body / default-sides dice / custom syntax, computed values with attributes, mutations; plus generated statements), snapshot (Attrs.ToJSON) after a random statement prefix = simulated restart; restore into a fresh VM; structural equality of all variables (tree comparison), second round trip is a fixed point; then the remaining statements and 4 follow-ups (70 read/call/index/mutate/extend programs + generated expressions) run on the original and the restored VM under the same generator state: error-ness, Ret, detail and variables must agree. 10%: cyclic and non-finite states must be rejected with an error. distinct = hash(state, cut, follow-ups)",
+		Rule:        "state = 1–9 statements (50 builder statements: scalars, nested containers, functions incl. empty body / default-sides dice / custom syntax, computed values with attributes, mutations; plus generated statements), snapshot (Attrs.ToJSON) after a random statement prefix = simulated restart; restore into a fresh VM; structural equality of all variables (tree comparison), second round trip is a fixed point; then the remaining statements and 4 follow-ups (70 read/call/index/mutate/extend programs + generated expressions) run on the original and the restored VM under the same generator state: error-ness, Ret, detail and variables must agree. 10%: cyclic and non-finite states must be rejected with an error. distinct = hash(state, cut, follow-ups) Every restored state must be a tree (no array/dict reachable by two paths); states with equal sibling rows (grid, rows, pair, tw, sib) and follow-ups that write through one sibling.",
 		Assumptions: []string{"states with cross-variable aliasing are compared structurally only (JSON is a tree format)", "natives and bound methods are outside the property's value domain"},
 	})
 }
